@@ -89,8 +89,95 @@ func directedScenario(g *Gen, imp string, variant int) Case {
 	return Case{"op": "scenario", "cfg": defaultCfg(), "tree": t.list(), "host": hostTable(g, variant%2 == 1), "steps": steps}
 }
 
+// fixed small forests for histories that need a particular shape
+func shapedScenario(g *Gen, which int) Case {
+	t := &treeB{ents: map[string][]interface{}{}}
+	for _, h := range []string{"/", "/dev", "/proc", "/sys", "/run"} {
+		t.ents[h] = []interface{}{hx(h), "d"}
+	}
+	t.dir(VB)
+	t.dir(VB + "/layers")
+	t.dir(VB + "/export")
+	t.dir(VB + "/hostsrc/sub")
+	t.file(VB+"/default_layerconfig.skel", "import proc /proc /proc\n")
+	pf := scnProfile{}
+	cfg := defaultCfg()
+	cmd := func(name string, args ...string) map[string]interface{} {
+		return obj("cmd", name, "args", hxs(args))
+	}
+	user := func(layer string, usedAs int, rel string) []interface{} {
+		return []interface{}{hx(layer), float64(usedAs), hx(rel)}
+	}
+	umountAll := func() map[string]interface{} {
+		return obj("cmd", "umount", "args", hxs([]string{""}), "all", true)
+	}
+	imports := []string{"import proc /proc /proc", "import rbind $$base/packages /var/cache/binpkgs"}
+	var steps []interface{}
+	switch which {
+	case 0, 1:
+		// export links exist (mount, unmount all), then the parent is renamed / rebased while a
+		// direct child is busy without overlaying it: refused, and nothing may change
+		for _, l := range []glayer{{name: "toolchain", imports: imports}, {name: "desktop", base: "toolchain", imports: imports},
+			{name: "other", imports: imports}} {
+			genLayerTree(g, t, l, pf, false)
+		}
+		last := cmd("rename", "toolchain", "tc2")
+		if which == 1 {
+			last = cmd("rebase", "toolchain", "other")
+		}
+		last["users"] = []interface{}{user("desktop", 1, g.Pick("packages", "", "generated/f"))}
+		steps = []interface{}{cmd("mount", "desktop"), umountAll(), cmd("probe"), last, cmd("probe")}
+	case 2, 3:
+		// the rebased / renamed layer has two children; the one that sorts first has a
+		// descendant of its own, the busy one sorts last
+		for _, l := range []glayer{{name: "stage3", imports: imports}, {name: "apps", base: "stage3", imports: imports},
+			{name: "office", base: "apps", imports: imports}, {name: "server", base: "stage3", imports: imports},
+			{name: "newstage", imports: imports}} {
+			genLayerTree(g, t, l, pf, false)
+		}
+		last := cmd("rebase", "stage3", "newstage")
+		if which == 3 {
+			last = cmd("rename", "stage3", "stage4")
+		}
+		last["users"] = []interface{}{user("server", 1, g.Pick("build", "build/usr/lib", "packages"))}
+		steps = []interface{}{cmd("probe"), last, cmd("probe")}
+	case 4:
+		// merged-usr build root: bin, sbin and lib are symbolic links into usr
+		for _, l := range []glayer{{name: "b0", imports: imports}, {name: "d0", base: "b0", imports: imports}} {
+			genLayerTree(g, t, l, pf, false)
+		}
+		for _, n := range []string{"bin", "sbin", "lib"} {
+			p := VB + "/layers/b0/build/" + n
+			for k := range t.ents {
+				if k == p || strings.HasPrefix(k, p+"/") {
+					delete(t.ents, k)
+				}
+			}
+			t.dir(VB + "/layers/b0/build/usr/" + n)
+			t.link(p, "usr/"+n)
+		}
+		steps = []interface{}{cmd("probe"), cmd("mount", "d0"), cmd("probe"), umountAll(), cmd("probe")}
+	default:
+		// export directory names that differ from the layer's own directory names, explicit
+		// export directives, then rename and remove
+		cfg["exportBinPkg"] = hx("binpkgs")
+		cfg["exportGenerated"] = hx("gen-out")
+		ex := []string{"export symlink /var/cache/binpkgs $$package_export", "export symlink /mnt/gen $$file_export"}
+		imports = append(imports, "import bind $$self/generated /mnt/gen")
+		for _, l := range []glayer{{name: "b0", imports: imports, exports: ex}, {name: "d0", base: "b0", imports: imports, exports: ex[:1]}} {
+			genLayerTree(g, t, l, pf, false)
+		}
+		steps = []interface{}{cmd("mount", "d0"), cmd("probe"), umountAll(), cmd("rename", "d0", "d9"), cmd("probe"),
+			obj("cmd", "remove", "args", hxs([]string{"d9"}), "files", false), cmd("rename", "b0", "b9"), cmd("probe")}
+	}
+	return Case{"op": "scenario", "cfg": cfg, "tree": t.list(), "host": hostTable(g, false), "steps": steps}
+}
+
 func init() {
 	register("scn-directed", func(g *Gen, tier string, emit func(Case)) {
+		for w := 0; w < 6; w++ {
+			emit(shapedScenario(g, w))
+		}
 		for _, imp := range directedImports {
 			for v := 0; v < 9; v++ {
 				if tier != "thorough" && v%3 != g.Intn(3) && v/3 != 0 {
